@@ -17,7 +17,23 @@ def apply_step(be, S, e, n, seed):
     """apply one public state-changing call to the live object S; returns (entry, S')"""
     k = e["kind"]
     out = dict(e)
-    if k == "rot":
+    if k == "rotself":
+        # the generator is a row of the state's own tableau (a view of the arrays that are being rotated)
+        G = S[e["j"]]
+        out["kind"] = "rot"
+        out["g"] = be.p_pauli(G)
+        out["self"] = e["j"]
+        out.pop("j")
+        if e.get("qs"):
+            out["kind"] = "rotm"
+            out["qs"] = e["qs"]
+            # (masked: the generator restricted to the masked qubits -- built from the projection, a fresh object)
+            w = out["g"]
+            out["g"] = [w[q - 1] for q in e["qs"]] + [w[-1]]
+            S.rotate_by(be.pauli(out["g"]), mask_of(be, e["qs"], n))
+        else:
+            S.rotate_by(G)
+    elif k == "rot":
         S.rotate_by(be.pauli(e["g"]))
     elif k == "rotm":
         S.rotate_by(be.pauli(e["g"]), mask_of(be, e["qs"], n))
@@ -144,6 +160,8 @@ class C05(Prop):
                 es = []
                 for g in gens:
                     es.append({"kind": "rot", "g": g})
+                for j in range(2 * n):
+                    es.append({"kind": "rotself", "j": j})
                 if n == 2:
                     for qs in ([1], [2]):
                         for g in enum.herm(1, identity=False):
